@@ -725,6 +725,12 @@ func (x *Unit) walkFields(st *State, cur *LV, t types.Type, path []int) *LV {
 			ref, haveRef = x.readLV(st, cur).T, true
 		}
 		if haveRef {
+			if mu, guarded := x.eng.guards[name+"."+f.Name()]; guarded && x.inSpec == 0 && x.entry != nil {
+				// guarded_by: the object's mutex is held, unless the object was created by this very call
+				g := x.ghostGet(st, "lockHeld")
+				held := Select(x.u.MapVal(g.T), x.fieldAddr(name+"."+mu, ref))
+				x.oblige(st, "guarded", f.Name()+" needs "+mu, Or(Not(Eq(held, IntLit(0))), Cmp(">", x.proot(ref), x.entry.alloc)), nil)
+			}
 			if isFlatStruct(f.Type()) {
 				cur = &LV{kind: lvHeap, key: structKey(f.Type()), ref: x.fieldAddr(name+"."+f.Name(), ref), srt: x.u.SortOf(f.Type()), typ: f.Type()}
 			} else {
@@ -756,6 +762,11 @@ func (x *Unit) readStructAt(st *State, p T, t types.Type) Val {
 }
 
 func (x *Unit) writeStructAt(st *State, p T, t types.Type, v T) {
+	if av, ok := x.atomicView(st, &LV{kind: lvHeap, key: structKey(t), ref: p, typ: t}); ok {
+		// an atomic object is only ever stored as its zero value: its cell starts at zero
+		x.writeLV(st, av, x.zero(av.typ))
+		return
+	}
 	stt, name, _ := structOfType(types.NewPointer(t))
 	for i := 0; i < stt.NumFields(); i++ {
 		f := stt.Field(i)
@@ -1155,6 +1166,7 @@ func (x *Unit) evalIndex(st *State, e *ast.IndexExpr, n int) []Val {
 		had := x.mapHas(st, m, k.T)
 		v := Ite(had, Select(x.u.MapVal(x.mapContent(st, m)), k.T), x.zero(tt.Elem()).T)
 		out := []Val{{x.define("mapget", v), tt.Elem()}}
+		x.assume(st, x.typeInv(st, out[0], 1))
 		if n == 2 {
 			out = append(out, Val{had, types.Typ[types.Bool]})
 		}
@@ -1370,6 +1382,7 @@ func (x *Unit) evalTypeAssert(st *State, e *ast.TypeAssertExpr, n int) []Val {
 		out = Val{Ite(ok, x.u.Unbox(IfaceVal(v.T), srt), x.zero(to).T), to}
 	}
 	out.T = x.define("assert", out.T)
+	x.reflectLenFact(v, out, ok)
 	if n == 2 {
 		return []Val{out, {ok, types.Typ[types.Bool]}}
 	}
@@ -1378,6 +1391,13 @@ func (x *Unit) evalTypeAssert(st *State, e *ast.TypeAssertExpr, n int) []Val {
 	x.assume(st, x.typeInv(st, out, 1))
 	x.assumeNoTypedNil(st, out)
 	return []Val{out}
+}
+
+// reflectLenFact: reflect.ValueOf(i).Len() is the length of the slice held by interface value i.
+func (x *Unit) reflectLenFact(iface Val, unboxed Val, isType T) {
+	if _, isSlice := x.u.sliceElem[unboxed.Sort]; isSlice && iface.Sort == SIface {
+		x.fact(Imp(isType, Eq(x.uf("reflectLen", SInt, iface.T), x.u.SliceLen(unboxed.T))))
+	}
 }
 
 // assumeNoTypedNil: a pointer taken out of an interface value by a successful type test is not nil
